@@ -18,7 +18,7 @@ def _sorted_ints(eng, st, x):
 S.spec_funcs["sorted_ints"] = _sorted_ints
 BALANCED = "G.fd_open == old(G.fd_open)"
 
-c = FE.contract("fork_exec", props=["C18", "C20"])
+c = FE.contract("fork_exec", props=["C18", "C20", "C19"])   # C19: LOKY_MAX_DEPTH reaches nested workers through the environment the child is given
 c.param("cmd", T.Obj).param("keep_fds", T.Obj).param("env", T.Map(T.Str, T.Str, nullable=True), default=NONE)
 c.heap_lists = T.Lst(T.Obj)
 FEV = "fork_exec"
@@ -28,7 +28,7 @@ c.ensures("forkexec/passes-exactly-the-sorted-keep-list", f"log_arg('{FEV}', 0, 
 c.ensures("forkexec/no-preexec-function-no-cwd", f"log_arg('{FEV}', 0, 4) is None and log_arg('{FEV}', 0, 21) is None", prop="C18")
 c.ensures("forkexec/environment-is-the-parents-overlaid-with-env",
           f"forall(Str, lambda k: implies((env is not None and k in env) or k in os.environ, "
-          f"mem(log_arg('{FEV}', 0, 5), os.fsencode(k + '=' + {MERGED}))))", prop="C18")
+          f"mem(log_arg('{FEV}', 0, 5), os.fsencode(k + '=' + {MERGED}))))", prop=["C18", "C19"])
 c.ensures("forkexec/error-pipe-closed", BALANCED + " and log_count('close') == 2", prop="C20")
 c.raises("forkexec/failure-leaks-no-descriptor", "OSError", post=BALANCED, prop="C20")
 c.raises_only("forkexec/only-oserror")
@@ -339,7 +339,7 @@ c.modifies_ = ["G.fd_open", "G.sig_blocked", "G.tracker_spawns", "G.pid_live", "
                "loky_tracker()._fd", "loky_tracker()._pid", "mp_tracker()._fd", "mp_tracker()._pid"]
 
 
-c = SP.contract("prepare", props=["C12", "C18"])
+c = SP.contract("prepare", props=["C12", "C18", "C13"])
 c.param("data", T.Obj).param("parent_sentinel", T.Obj, default=NONE)
 FIX = "(log_count('call:_fixup_main_from_name') + log_count('call:_fixup_main_from_path') + log_count('raise:_fixup_main_from_name') + log_count('raise:_fixup_main_from_path'))"
 c.ensures("inherit/installs-the-parents-tracker",
@@ -350,7 +350,7 @@ c.ensures("main/never-reloaded-unless-the-parent-asked",
 c.ensures("main/reloaded-at-most-once", f"{FIX} <= 1", prop="C18")
 INSTALLED = ("implies('tracker_args' in data, loky_tracker()._pid == unbox(data['tracker_args']['pid']) and loky_tracker()._fd == unbox(data['tracker_args']['fd']))")
 for fx in ("_fixup_main_from_name", "_fixup_main_from_path"):
-    c.at_call(f"loky.backend.spawn:{fx}", "the-parents-tracker-is-installed-before-the-main-module-is-re-run", INSTALLED, prop="C12")
+    c.at_call(f"loky.backend.spawn:{fx}", "the-parents-tracker-is-installed-before-the-main-module-is-re-run", INSTALLED, prop=["C12", "C13"])   # C13: a semaphore created by the re-run main module must go to the tree's tracker, not to a private one that dies with the worker
 c.raises("prepare/errors-of-the-fix-up-or-logging-propagate", "BaseException",
          post=f"implies('init_main_from_name' not in data and 'init_main_from_path' not in data, {FIX} == 0)", prop="C18")
 c.modifies("loky_tracker()._fd", "loky_tracker()._pid", f"glob:loky.backend.spawn.old_main_modules", "mp_tracker()._fd", "mp_tracker()._pid",
